@@ -135,6 +135,12 @@ def _r2_r3(ctx):
     roles = sorted(C.str_consts(outer[-1].iter)) if outer else []
     ctx.check(roles == ["destination", "src_dst"], "R2", "producers' written operands = destination + src_dst", fd.where(),
               "find_depending starts from the roles %s" % roles, fd.qname, "producer roles")
+    flag_threading(ctx, "R3")
+
+
+def flag_threading(ctx, rule="R3"):
+    """The flag-dependency request reaches every graph construction unchanged (shared with C04: the critical path is
+    searched in the graph built by KernelDG.__init__)."""
     # ---- threading
     chain = [("osaca.inspect", "KernelDG", "KernelDG.__init__"), ("KernelDG.__init__", "create_DG", "KernelDG.create_DG"),
              ("KernelDG.__init__", "check_for_loopcarried_dep", "KernelDG.check_for_loopcarried_dep"),
@@ -145,12 +151,12 @@ def _r2_r3(ctx):
         callee = ctx.func(callee_q)
         pi = C.param_index(callee, "flag_dependencies")
         if pi is None:
-            ctx.bad("R3", "%s has a flag_dependencies parameter" % callee_q, callee.where(),
+            ctx.bad(rule, "%s has a flag_dependencies parameter" % callee_q, callee.where(),
                     "%s lost its flag_dependencies parameter" % callee_q, callee_q, "parameter")
             continue
         calls = [c for c in ast.walk(caller.node) if isinstance(c, ast.Call) and pm.call_name(c).split(".")[-1] == callee_name]
         if not calls:
-            ctx.bad("R3", "%s calls %s" % (caller_q, callee_name), caller.where(), "call not found", caller_q,
+            ctx.bad(rule, "%s calls %s" % (caller_q, callee_name), caller.where(), "call not found", caller_q,
                     "call %s" % callee_name)
             continue
         for c in calls:
@@ -161,17 +167,50 @@ def _r2_r3(ctx):
             else:
                 ok = a is not None and U(a) == "flag_dependencies"
                 want = "its own flag_dependencies"
+                if a is None:
+                    # not passed: the callee may fall back to an attribute of the object, which then must have been set
+                    # from the caller's own parameter before the call
+                    def fallback_attr(fn_, depth=0):
+                        for st_ in ast.walk(fn_.node):
+                            if isinstance(st_, ast.Assign) and U(st_.targets[0]) == "flag_dependencies" and C.holds_at(st_, "flag_dependencies is None"):
+                                m_ = pm.match("getattr(self, M_a, M_d)", st_.value) or pm.match("getattr(self, M_a)", st_.value)
+                                if m_ is not None and isinstance(m_["M_a"], ast.Constant):
+                                    return m_["M_a"].value
+                                if isinstance(st_.value, ast.Attribute) and U(st_.value.value) == "self":
+                                    return st_.value.attr
+                        if depth < 2 and not any(isinstance(x, (ast.Assign, ast.AugAssign)) and U(
+                                x.targets[0] if isinstance(x, ast.Assign) else x.target) == "flag_dependencies" for x in ast.walk(fn_.node)):
+                            # the parameter is handed on untouched (None included) to a function that has the fall-back
+                            for c2 in ast.walk(fn_.node):
+                                if isinstance(c2, ast.Call) and isinstance(c2.func, ast.Attribute) and U(c2.func.value) == "self" \
+                                        and any(U(x) == "flag_dependencies" for x in list(c2.args) + [k.value for k in c2.keywords]):
+                                    g_ = ctx.repo.funcs.get("KernelDG." + c2.func.attr)
+                                    if g_ is not None and "flag_dependencies" in g_.params():
+                                        a_ = fallback_attr(g_, depth + 1)
+                                        if a_ is not None:
+                                            return a_
+                        return None
+                    attr = fallback_attr(callee)
+                    dflt = callee.node.args.defaults
+                    pidx = [x.arg for x in callee.node.args.args].index("flag_dependencies")
+                    dnode = dflt[pidx - (len(callee.node.args.args) - len(dflt))] if pidx >= len(callee.node.args.args) - len(dflt) else None
+                    if attr is not None and isinstance(dnode, ast.Constant) and dnode.value is None:
+                        ccfg = C.cfg_of(caller)
+                        sets = [x for x in ast.walk(caller.node) if isinstance(x, ast.Assign) and U(x.targets[0]) == "self." + attr
+                                and U(x.value) == "flag_dependencies"]
+                        ok = any(ccfg.dominates(x, ccfg.node_of(c)) for x in sets)
+                        want = "its own flag_dependencies (directly, or through self.%s set before the call)" % attr
             if ok:
-                ctx.node_ok("R3", caller, c, "%s -> %s passes %s" % (caller_q, callee_name, want))
+                ctx.node_ok(rule, caller, c, "%s -> %s passes %s" % (caller_q, callee_name, want))
             else:
-                ctx.node_bad("R3", caller, c, "%s does not pass %s to %s (got %s): the request for flag dependencies "
+                ctx.node_bad(rule, caller, c, "%s does not pass %s to %s (got %s): the request for flag dependencies "
                              "is lost or forced on this path" % (caller_q, want, callee_q, U(a) if a is not None else "nothing"))
     cp = ctx.func("osaca.create_parser")
     opt = [c for c in ast.walk(cp.node) if isinstance(c, ast.Call) and c.args and isinstance(c.args[0], ast.Constant)
            and c.args[0].value == "--consider-flag-deps"]
     kw = {k.arg: U(k.value) for k in opt[0].keywords} if opt else {}
     ctx.check(kw.get("dest") == "'consider_flag_deps'" and kw.get("action") == "'store_true'" and kw.get("default", "False") == "False",
-              "R3", "--consider-flag-deps is an opt-in switch", cp.where(), "option definition changed: %s" % kw, cp.qname,
+              rule, "--consider-flag-deps is an opt-in switch", cp.where(), "option definition changed: %s" % kw, cp.qname,
               "cli flag option")
 
 
